@@ -2,7 +2,7 @@
 // list expressions, data environments, file sets.
 import * as X from './expr.mjs'
 import * as M from './tmodel.mjs'
-import { fn, fn2, Ctor, edgeValue } from './values.mjs'
+import { fn, fn2, Ctor, edgeValue as edgeValueAll, edgeValueSmall } from './values.mjs'
 
 export const DATA_NAMES = ['a', 'b', 'c', 'd', 'e', 'f']
 
@@ -71,7 +71,8 @@ export class GenCtx {
   }
 }
 
-export function makeData(rng) {
+export function makeData(rng, opts = {}) {
+  const edgeValue = opts.small ? edgeValueSmall : edgeValueAll
   const D = {}
   for (const n of DATA_NAMES) D[n] = edgeValue(rng)
   const mkItem = (i) => ({ k: 'k' + i, id: i, v: edgeValue(rng), x: rng.pick([1, 'x', null, { y: 2 }]), sub: rng.bool(0.5) ? [i, 'p' + i] : undefined })
